@@ -75,7 +75,8 @@ example : matchF Quirks.current cexView false cexFilter = sem Quirks.current cex
 /-- The per-backend row loop without index pre-selection and without the early cut returns exactly the
     rows of the store that satisfy the Boolean meaning of the filter and pass authorisation: none is
     omitted, no other row is returned, the order is the store order, and the reported total is their
-    number.  Holds whether or not negation is pushed down the tree. -/
+    number.  `hq` excludes only the switch of the repaired defect (a negated `Or` group evaluated as
+    written, fix 1): `Quirks.current` satisfies it. -/
 theorem gatherRows_scan_eq_filter (m : EvalMode) (cx : Ctx) (t : Table) (req : Request)
     (hi : m.useIndex = false) (hc : m.earlyCut = false) (hq : m.q.negOr = false) :
     (gatherRows m cx t req).hits.map (·.r) =
